@@ -92,7 +92,7 @@ def _kernel(shard):
     else:
         recs = [(records.id1(N), records.id2(N)), (records.seeded(N, seed, 0), records.seeded(N, seed, 1)),
                 (np.zeros(N), np.zeros(N))]
-    wins = ("ramp", "hann") if not cuda else ("ramp",)
+    wins = ("ramp", "hann", "gapneg") if not cuda else ("gapneg",)
     ws = (0.0, 0.7, np.pi) if not cuda else (0.7,)
     out = {"evals": 0, "nontrivial": 0, "failures": [], "samples": [], "extra": {"degree_p_plus_1_changes": 0}}
     seen = set()
